@@ -412,6 +412,39 @@ pub fn run_c18(run: &mut Run) -> Stats {
             }
             std::fs::OpenOptions::new().write(true).open(&path).unwrap().set_modified(mtime0).unwrap();
         }
+        // (b') a lattice of modification-time deltas: the tag must tell apart times that differ by
+        // any of these amounts (fields merged with the wrong radix collide on such pairs)
+        {
+            let ns = |n: i128| n;
+            let deltas: Vec<i128> = vec![
+                ns(2), ns(999), ns(1_000), ns(1_000_000), ns(999_999_999), ns(1_000_000_000) - 1_000_000, ns(1_000_000_000) - 1_000, ns(1_000_000_000) - 1,
+                ns(1_000_000_000) + 1, 2 * ns(1_000_000_000) - 2_000_000, ns(1_000_000_000) * 1000 - ns(1_000_000_000), ns(1) << 32, (ns(1) << 32) - 1, ns(1_000_000_000) * 16, ns(1_000_000_000) * 256,
+                ns(1_000_000_000) * 4096 + 1, ns(1_000_000_000) * 65_536 - 65_536, ns(1_000_000_000) * 10 - 10, ns(1_000_000_000) * 16 - 16,
+            ];
+            let mut deltas = deltas;
+            deltas.sort();
+            deltas.dedup();
+            let mut tags: Vec<(i128, Vec<u8>)> = Vec::new();
+            let base_t = std::time::UNIX_EPOCH + std::time::Duration::new(1_700_000_000, 123_456_789);
+            for d in std::iter::once(0i128).chain(deltas.iter().copied()).chain(deltas.iter().map(|d| -*d)) {
+                let t = if d >= 0 { base_t + std::time::Duration::from_nanos(d as u64) } else { base_t - std::time::Duration::from_nanos((-d) as u64) };
+                let w = std::fs::OpenOptions::new().write(true).open(&path).unwrap();
+                if w.set_modified(t).is_err() || std::fs::metadata(&path).unwrap().modified().unwrap() != t {
+                    st.count("mtime_delta_not_kept_by_fs", 1);
+                    continue;
+                }
+                drop(w);
+                let c = Crf::new(File::open(&path).unwrap(), HeaderMap::new()).unwrap();
+                if let Some(e) = tag(&c) {
+                    if let Some((d0, _)) = tags.iter().find(|(_, e0)| *e0 == e) {
+                        fs.push(fnd(&["C18"], "etag-collision", format!("same etag for modification times that differ by {} ns (offsets {d0} and {d} from the base time)", d - d0)));
+                    }
+                    tags.push((d, e));
+                }
+            }
+            st.count("mtime_deltas_checked", tags.len() as u64);
+            std::fs::OpenOptions::new().write(true).open(&path).unwrap().set_modified(mtime0).unwrap();
+        }
         // (e) modification times before the epoch and far in the future: validators must still
         // be produced (no panic), valid, and serve() must answer
         for (what, t) in [("1969", std::time::UNIX_EPOCH - std::time::Duration::from_secs(86_400)), ("1901", std::time::UNIX_EPOCH - std::time::Duration::new(2_177_452_800, 500_000_000)), ("year-9999", std::time::UNIX_EPOCH + std::time::Duration::from_secs(253_402_300_799))] {
@@ -606,6 +639,14 @@ fn build_tree() -> Tree {
     Tree { base, inside, secret_outside: (m.dev(), m.ino()), _root: root }
 }
 
+thread_local! {
+    static SECRET_ABS: std::cell::RefCell<String> = const { std::cell::RefCell::new(String::new()) };
+}
+
+fn tree_secret_abs() -> String {
+    SECRET_ABS.with(|s| s.borrow().clone())
+}
+
 fn show_path(p: &str) -> String {
     if p.len() > 80 {
         format!("{:?}...({} bytes)", &p[..40], p.len())
@@ -624,6 +665,8 @@ pub fn run_c19(run: &mut Run) -> Stats {
     run.rule = format!("every path of 1..{kmax} segments over {{a, sub, .., ., ..., ..a, a.., '', secret}} joined by '/', with {{no, leading, trailing, both}} extra slash, with a NUL inserted at every byte position (and none), x Accept-Encoding in {{absent, gzip, gzip;q=0, identity;q=1 gzip;q=0.5, *, br gzip;q=0.001}} x auto_gzip on/off, against a tree with plain files, .gz siblings, a .gz directory, names made of dots, and a `secret` file outside the base. Oracle: lexical rule (leading '/', NUL, '..' segment) => Err(InvalidInput); otherwise (device, inode) of the returned node == std::fs::metadata(base/path) -- or of base/path.gz when auto_gzip && the independent evaluator prefers gzip && that sibling exists and is not a directory -- and the same error kind when std fails; the inode must lie inside the base; encoding()/add_encoding_headers report gzip exactly when substituted and Vary exactly when auto_gzip. non-trivial = distinct (path, Accept-Encoding, auto_gzip)");
     run.bounds = json!({"max_segments": kmax, "segments": SEGS, "accept_encodings": AES.len()});
     run.assumptions.push("std::fs on the sandbox file system is the reference; no symlinks in the tree (the crate documents that it does not check them)".into());
+    let tree = build_tree();
+    SECRET_ABS.with(|s| *s.borrow_mut() = tree._root.path().join("secret").to_string_lossy().to_string());
     // enumerate base paths
     let mut paths: Vec<String> = Vec::new();
     let mut level: Vec<String> = SEGS.iter().map(|s| s.to_string()).collect();
@@ -651,11 +694,15 @@ pub fn run_c19(run: &mut Run) -> Stats {
     for tail in ["abc", "abc.gz", "missing", "", ".."] {
         paths.push(format!("{deep}/{tail}"));
     }
+    // the absolute path of the outside secret, smuggled behind prefixes a sloppy normaliser strips
+    let abs = tree_secret_abs().trim_start_matches('/').to_string();
+    for pre in [".//", "./", "././/", "a/..//", "sub/.//", ".///"] {
+        paths.push(format!("{pre}{abs}"));
+    }
     paths.sort();
     paths.dedup();
     run.extra.insert("base_paths".into(), json!(paths.len()));
     let prop = run.prop.clone();
-    let tree = build_tree();
     let nthreads = threads();
     let chunk = paths.len().div_ceil(nthreads * 4);
     let nchunks = paths.len().div_ceil(chunk);
